@@ -17,8 +17,8 @@ import (
 // ---- the world every case starts from --------------------------------------------------------------------
 
 var (
-	addrC       = evmkit.Contract   // runs the program under test
-	addrCaller  = evmkit.CallerAddr // externally owned, rich
+	addrC       = evmkit.Contract                                                   // runs the program under test
+	addrCaller  = evmkit.CallerAddr                                                 // externally owned, rich
 	addrSuicide = common.HexToAddress("0x00000000000000000000000000000000005e1fde") // CALLER SELFDESTRUCT
 	addrWriter  = common.HexToAddress("0x000000000000000000000000000000000000a11d") // SSTORE + LOG0 + return 32 bytes
 	addrRevert  = common.HexToAddress("0x0000000000000000000000000000000000bad0ee") // SSTORE then REVERT
@@ -30,9 +30,9 @@ var (
 func push20(a common.Address) []byte { return append([]byte{0x73}, a[:]...) }
 
 var (
-	codeSuicide = []byte{0x33, 0xff}                                                                     // CALLER SELFDESTRUCT
+	codeSuicide = []byte{0x33, 0xff}                                                                               // CALLER SELFDESTRUCT
 	codeWriter  = []byte{0x60, 0x07, 0x60, 0x01, 0x55, 0x60, 0x00, 0x60, 0x00, 0xa0, 0x60, 0x20, 0x60, 0x00, 0xf3} // SSTORE(1,7) LOG0(0,0) RETURN(0,32)
-	codeRevert  = []byte{0x60, 0x07, 0x60, 0x02, 0x55, 0x60, 0x00, 0x60, 0x00, 0xfd}                   // SSTORE(2,7) then REVERT (INVALID before Byzantium)
+	codeRevert  = []byte{0x60, 0x07, 0x60, 0x02, 0x55, 0x60, 0x00, 0x60, 0x00, 0xfd}                               // SSTORE(2,7) then REVERT (INVALID before Byzantium)
 	// the static wrapper: STATICCALL(gas=2^64-1, addrC, in 0..0, out 0..0); STOP
 	codeStaticW = func() []byte {
 		b := []byte{0x60, 0x00, 0x60, 0x00, 0x60, 0x00, 0x60, 0x00}
@@ -103,7 +103,9 @@ type obs struct {
 	refund uint64
 }
 
-func (o obs) String() string { return fmt.Sprintf("root=%x logs=%s refund=%d", o.root[:6], o.logs, o.refund) }
+func (o obs) String() string {
+	return fmt.Sprintf("root=%x logs=%s refund=%d", o.root[:6], o.logs, o.refund)
+}
 
 func logsDigest(st *state.StateDB) string {
 	logs := st.Logs()
@@ -170,16 +172,16 @@ type frame struct {
 
 type tracer struct {
 	clearEmpty bool
-	st        *state.StateDB
-	frames    []frame
-	first     *finding
-	maxDepth  int
-	steps     int
-	nestedObs int // how many more call sites get a before/after state observation
+	st         *state.StateDB
+	frames     []frame
+	first      *finding
+	maxDepth   int
+	steps      int
+	nestedObs  int // how many more call sites get a before/after state observation
 	nestedSeen int
 	callFailed int
-	opsSeen   [256]bool
-	maxMem    int
+	opsSeen    [256]bool
+	maxMem     int
 }
 
 func (t *tracer) fail(oracle string, op vm.OpCode, f string, a ...interface{}) {
